@@ -471,16 +471,16 @@ def extra_configs(prop, tier, seed):
                 c = ks[q_ % len(ks)]
                 nv = max(c['n_vars'], 2)
                 extra.append(dict(c, hook='observer', adv=0.0, n_iter=8, n_agents=max(c['n_agents'], 6), n_vars=nv, box='wide', lb=[-10.0] * nv, ub=[10.0] * nv,
-                                  objective=objs_x[(j_ + q_ * 3) % 6] if not (kind == 'SA' and q_ == 0) else 'uintcost', hyper={}, store_best_only=False))
+                                  objective=(['uintcost', 'arr1', 'longdbl', 'bigint'][q_ % 4] if kind == 'ABC' else objs_x[(j_ + q_ * 3) % 6]) if not (kind == 'SA' and q_ == 0) else 'uintcost', hyper={}, store_best_only=False))
     if prop == 'C20':
         # swarms on a box whose corner is the optimum and the origin: particles are clipped onto exact zeros, a personal best at the
         # origin is a personal best like any other
         pool_z = [c for c in runlevel.gen_configs('thorough', seed + 391) if c['space'] == 'search']
         for kind in ('PSO', 'AIWPSO', 'RPSO'):
-            for q_, c in enumerate([c for c in pool_z if c['kind'] == kind][:2 if tier == 'quick' else 6]):
-                nv = 1 + q_ % 2
-                extra.append(dict(c, hook='observer', adv=0.0, n_iter=14, n_agents=8, n_vars=nv, box='wide', lb=[0.0] * nv, ub=[10.0] * nv,
-                                  objective='sphere', hyper={}, store_best_only=False))
+            for q_, c in enumerate([c for c in pool_z if c['kind'] == kind][:4 if tier == 'quick' else 12]):
+                nv = 1 if q_ % 4 else 2
+                extra.append(dict(c, hook='observer', adv=0.0, n_iter=20, n_agents=8, n_vars=nv, box='wide', lb=[0.0] * nv, ub=[10.0] * nv,
+                                  objective='nearorigin' if q_ % 4 else 'sphere', hyper={}, store_best_only=False))
     if prop in ('C01', 'C06'):
         # adversarial draws already while the space is built (exactly the low end, the last double below the high end) on boxes whose
         # end points are not round numbers: the initial population is evaluated unclipped
@@ -497,7 +497,7 @@ def extra_configs(prop, tier, seed):
         pool_s = [c for c in runlevel.gen_configs('thorough', seed + 411) if c['space'] == 'search']
         for kind in ('SA', 'ABC', 'FPA', 'CS', 'HS'):
             for c in [c for c in pool_s if c['kind'] == kind][:1 if tier == 'quick' else 3]:
-                extra.append(dict(c, hook='observer', adv=0.0, n_iter=8, n_agents=6, n_vars=2, box='wide', lb=[-5.0, 4.0], ub=[5.0, -4.0],
+                extra.append(dict(c, hook='observer', adv=0.0, n_iter=8, n_agents=6, n_vars=2, box='wide', lb=[-5.0, 3.0], ub=[5.0, -1.0],
                                   objective='sphere', hyper={}, store_best_only=False))
     if prop == 'C15':
         # the ranges of the adaptive hyperparameters narrowed through the setters by a hook while the task runs
